@@ -31,19 +31,23 @@ theorem cfg_actions_sound_partial :
     ∀ e ∈ stdCfgContainers, (e.container, e.method) ∉ knownUnsoundRows → entrySound e = true := by
   decide +kernel
 
-/-- the unsound rows of the current table are exactly the listed ones (a second class would break this theorem) -/
+/-- a row of the table is unsound **iff** it is one of the listed rows and still configured as `push` (today: all eight;
+    after proposed/C02-set-insert-action.diff: none, and then this theorem says that every row is sound).
+    A second class of unsound rows would break this theorem. -/
 theorem cfg_actions_unsound_rows_exact :
-    ((stdCfgContainers.filter fun e => !entrySound e).map fun e => (e.container, e.method)) = knownUnsoundRows := by
+    (stdCfgContainers.filter fun e => !entrySound e) =
+      (stdCfgContainers.filter fun e => knownUnsoundRows.contains (e.container, e.method) && e.action == .push) := by
   decide +kernel
 
-/-- the full statement is false of the current cfg/std.cfg: `std::set::insert` is in the table with action `push`; an execution
-    inserts an element that is already present (size 1 → 1), the assumed effect says 1 → 2 -/
+/-- the full statement ("every configured action is sound") is false for a unique-key insertion configured as `push`:
+    the reference effect of `std::set::insert` (over all overloads: the size does not shrink) allows 1 → 1, inserting a key that
+    is present; the assumed effect of `push` is 1 → 2 -/
 theorem cfg_set_insert_counterexample :
-    ¬ ∀ e ∈ stdCfgContainers, ∀ k r, kindOf e.container = some k → refEffect k e.method = some r →
-        ∀ arg n n', r.rel arg n n' → (absEffect e.action e.yield).rel arg n n' := by
+    refEffect .set "insert" = some .grow ∧ entrySound ⟨"stdSet", "insert", .push, .noYield⟩ = false ∧
+    ¬ ∀ arg n n', Eff.grow.rel arg n n' → (absEffect .push .noYield).rel arg n n' := by
+  refine ⟨by decide, by decide, ?_⟩
   intro h
-  have hm : (⟨"stdSet", "insert", .push, .noYield⟩ : Entry) ∈ stdCfgContainers := by decide +kernel
-  have := h _ hm .set .grow (by decide) (by decide) 0 1 1 (by simp [Eff.rel])
+  have := h 0 1 1 (by simp [Eff.rel])
   simp [absEffect, Eff.rel] at this
 
 /-- sound rows with action `push`: the container is not empty after the call (the Impossible-0 fact valueFlowContainerSize
@@ -78,6 +82,11 @@ theorem known_size_sound (calls : List Call) (h : ∀ c ∈ calls, refinesB c.re
       have habs : c.abs.rel c.arg n0 m := refinesB_sound c.ref c.abs (h c List.mem_cons_self) c.arg n0 m hrel
       exact ih (fun c' hc' => h c' (List.mem_cons_of_mem _ hc')) m (absStep c.abs c.arg k0)
         (absStep_sound c.abs c.arg n0 m k0 hk0 habs) n hrest k hk
+
+example : (∀ c ∈ [({ abs := .add 1, ref := .add 1, arg := 0 } : Call), { abs := .pop, ref := .pop, arg := 0 }, { abs := .any, ref := .shrink, arg := 0 }],
+      refinesB c.ref c.abs = true) ∧
+    absRun [{ abs := .add 1, ref := .add 1, arg := 0 }, { abs := .add 1, ref := .add 1, arg := 0 }, { abs := .pop, ref := .pop, arg := 0 }] (some 0) = some 1 := by
+  decide
 
 /-- the call site of a table row -/
 def callOf (e : Entry) (arg : Nat) : Call :=
